@@ -104,6 +104,23 @@ impl HeapBuffer {
         Ok(HeapBuffer { ptr, len })
     }
 
+    /// Creates a buffer of exactly `capacity` bytes holding `text`.
+    ///
+    /// `capacity` must be greater than or equal to `text.len()`.
+    pub(super) fn with_exact_capacity(text: &str, capacity: usize) -> Result<Self, ReserveError> {
+        debug_assert!(text.len() <= capacity);
+
+        let mut buf = HeapBuffer::with_capacity(capacity)?;
+        // SAFETY:
+        // - `buf` was just allocated with room for `capacity >= text.len()` bytes and is unique.
+        // - src and dst don't overlap because we allocated dst just now.
+        unsafe {
+            ptr::copy_nonoverlapping(text.as_ptr(), buf.ptr.as_ptr(), text.len());
+            buf.set_len(text.len());
+        }
+        Ok(buf)
+    }
+
     pub(super) fn capacity(&self) -> usize {
         self.header().capacity.as_usize()
     }
